@@ -877,10 +877,16 @@ def wl_inverse(run, rng, idx):
     # multiple of J it recovers +-A itself.  (Seeded change C17-r4-1: the inverse
     # of the form-diagonalising matrix replaced by its transpose, invisible for
     # forms with eigenvalues +-1.)  Generic A, B only (no zero-entry classes: F35).
-    if fam_is_generic(A) and fam_is_generic(B) and fam_is_generic(A @ B):
+    if fam in ("generic", "det-minus-one") and fam_is_generic(A) and fam_is_generic(B) \
+            and fam_is_generic(A @ B):
+        # (random float data only: for a form other than J the function recovers a
+        # CONJUGATE g A g^-1 with g of the library's choosing, and structured data --
+        # integer, triangular -- can put an exact zero into that conjugate, which is
+        # F35's zero-anchor mechanism again: thorough seed 0 hit it with the integer
+        # family under diag(1,-1,1), a false alarm of this block)
         J = np.diag([-1.0, 1.0, 1.0])
         fk = ["positive-multiple", "diagonal-scaling", "generic-congruence", "orthogonal-congruence",
-              "permuted-diagonal", "scaled-permuted-diagonal"][idx % 6]
+              "permuted-diagonal", "scaled-permuted-diagonal"][(idx // 6) % 6]
         if fk == "positive-multiple":
             Pm = np.eye(3) * float(np.exp(rng.uniform(np.log(0.3), np.log(4.0))))
         elif fk == "diagonal-scaling":
@@ -889,7 +895,7 @@ def wl_inverse(run, rng, idx):
             # exactly diagonal forms whose negative entry is NOT in the first slot
             # (seeded change C17-r5-1: a diagonal-form fast path hard-coding the
             # basis order of diag(-1,1,1))
-            perm = [(1, 0, 2), (1, 2, 0), (2, 1, 0), (2, 0, 1), (0, 2, 1)][(idx // 6) % 5]
+            perm = [(1, 0, 2), (1, 2, 0), (2, 1, 0), (2, 0, 1), (0, 2, 1)][(idx // 36 + idx) % 5]
             Pm = np.eye(3)[list(perm)]
             if fk == "scaled-permuted-diagonal":
                 Pm = Pm @ np.diag(np.exp(rng.uniform(np.log(0.4), np.log(3.0), size=3)))
@@ -918,6 +924,11 @@ def wl_inverse(run, rng, idx):
             mon.fail("inverse/o_to_pgl/explicit-form/exception:%s/%s" % (type(e).__name__, fk),
                      "o_to_pgl(S, form) raised %s: %s" % (type(e).__name__, str(e)[:100]),
                      case, tb=traceback.format_exc())
+            a = None
+        if a is not None and not all(fam_is_generic(x) for x in (a, b, ab)):
+            # a recovered conjugate with an entry near zero: sign recovery through
+            # that anchor is ill-conditioned (the "near-zero" class of the main check)
+            mon.skip("explicit form: a recovered conjugate has an entry near zero")
             a = None
         if a is not None:
             mon.judge(lr.eq_up_to_sign(ab, a @ b), tolf,
